@@ -29,6 +29,15 @@ def forwarding_loops(f: ast.AST) -> List[Tuple[ast.For, ast.If, ast.AST, str, st
             e = e.func.value
         if isinstance(e, ast.Call) and isinstance(e.func, ast.Attribute) and e.func.attr == "flatten":
             src = norm(e.func.value)
+        if src is None and isinstance(e, ast.Name):
+            # layer-wise form: `for layer in [reversed(]<ctx>.dicts[)]: for k, v in layer.items(): ...`
+            outer = next((a for a in ancestors(loop) if isinstance(a, ast.For)), None)
+            if outer is not None and norm(outer.target) == e.id:
+                oe = outer.iter
+                while isinstance(oe, ast.Call) and isinstance(oe.func, ast.Name) and oe.func.id in ("reversed", "list", "tuple") and oe.args:
+                    oe = oe.args[0]
+                if isinstance(oe, ast.Attribute) and oe.attr == "dicts":
+                    src = norm(oe.value)
         if src is None:
             continue
         kvar = loop.target.elts[0] if isinstance(loop.target, ast.Tuple) else loop.target
